@@ -35,6 +35,18 @@ type ctx struct {
 	Final       reply      `json:"final"`
 	DataRefused int        `json:"data_refused,omitempty"`
 	TruncLast   bool       `json:"trunc_last,omitempty"`
+	CutData     bool       `json:"cut_data,omitempty"` // the session ended inside a DATA payload (no end-of-data line was sent)
+	CutWhere    string     `json:"cut_where,omitempty"`
+	CutBody     int        `json:"cut_body,omitempty"` // wire bytes sent after the blank line that ends the header
+}
+
+// cutWhere says whether the bytes of a DATA payload that were sent contain the complete header,
+// and how many bytes followed it.
+func cutWhere(sent []byte) (string, int) {
+	if i := bytes.Index(sent, []byte("\r\n\r\n")); i >= 0 {
+		return "after-header", len(sent) - i - 4
+	}
+	return "in-header", 0
 }
 
 type slot struct {
@@ -53,6 +65,8 @@ type engine struct {
 	stop    bool
 	desync  bool
 	sawEOF  bool // the server closed the connection and we saw it
+	stuckOp string // the command whose reply provably never comes (client.deadlock)
+	inBdat  bool   // a non-LAST chunk of the current transaction was answered 2xx: a chunked transfer is open
 
 	probeDomains map[string]bool // clean sender domains named in MAIL commands ("" = null sender)
 	counts       map[string]int64
@@ -79,6 +93,7 @@ func (e *engine) terminate(term, outcome string) {
 	}
 	e.cur.Term, e.cur.Outcome = term, outcome
 	e.cur = nil
+	e.inBdat = false
 }
 
 func (e *engine) queue(b []byte) { e.out.Write(b) }
@@ -95,6 +110,12 @@ func (e *engine) flush() {
 			continue
 		}
 		r := e.read()
+		if r.Err == "deadlock" && e.stuckOp == "" {
+			e.stuckOp = sl.st.Op
+			if sl.st.Op == "junk" {
+				e.stuckOp = strings.ToLower(strings.Fields(sl.st.Line + " junk")[0])
+			}
+		}
 		e.handle(sl, r)
 	}
 }
@@ -181,6 +202,22 @@ func (e *engine) flushPendingThenStop(st *step) {
 
 func (e *engine) handle(sl slot, r reply) {
 	st := sl.st
+	if e.inBdat && st.Op != "bdat" && st.Op != "rset" {
+		// a command other than BDAT/RSET in the middle of a chunked transfer
+		cls := "other"
+		if st.Op == "greet" {
+			cls = "greet"
+		}
+		res := "refused"
+		switch {
+		case r.none():
+			res = "unanswered"
+		case r.ok():
+			res = "accepted"
+		}
+		e.count("bdat_interject_" + cls)
+		e.count("bdat_interject_" + cls + "_" + res)
+	}
 	switch sl.kind {
 	case "cmd":
 		switch st.Op {
@@ -232,6 +269,17 @@ func (e *engine) handle(sl slot, r reply) {
 			return
 		}
 		if !st.Blind {
+			if st.CutWire != nil {
+				// group X: the transfer ends at a chosen structural point, the end-of-data line is never sent
+				e.cl.send(st.CutWire)
+				e.stop = true
+				e.count("data_cut")
+				e.count("xcut_reached")
+				e.count("xcut_reached_" + st.CutClass)
+				c.CutData = true
+				c.CutWhere, c.CutBody = cutWhere(st.CutWire)
+				return
+			}
 			payload := dotStuff(st.Payload)
 			if st.Cut > 0 {
 				cut := st.Cut
@@ -241,6 +289,8 @@ func (e *engine) handle(sl slot, r reply) {
 				e.cl.send(payload[:cut])
 				e.stop = true
 				e.count("data_cut")
+				c.CutData = true
+				c.CutWhere, c.CutBody = cutWhere(payload[:cut])
 				return
 			}
 			e.cl.send(append(payload, []byte(".\r\n")...))
@@ -262,6 +312,9 @@ func (e *engine) handle(sl slot, r reply) {
 				c.Final = r
 				e.terminate("bdat-fail", "failure")
 				e.goRcpts = nil
+			} else {
+				e.inBdat = true
+				e.count("bdat_nonlast_chunks_accepted")
 			}
 			return
 		}
@@ -339,6 +392,18 @@ func (e *engine) finish() (eofObserved bool) {
 	if e.desync && (end == "quit") {
 		end = "halfclose"
 	}
+	if e.cl.deadlock != "" {
+		// the server cannot answer any more (deadlock_test.go): the client just leaves
+		if end == "rst" {
+			e.cl.reset()
+		} else {
+			e.cl.close()
+		}
+		if e.cur != nil {
+			e.terminate("end", "aborted")
+		}
+		return false
+	}
 	switch end {
 	case "quit":
 		if !e.cl.dead {
@@ -365,6 +430,8 @@ func (e *engine) finish() (eofObserved bool) {
 		if e.cur.TruncLast {
 			// go-smtp treats a short LAST chunk followed by EOF as complete: not judged
 			e.terminate("end", "unknown")
+		} else if e.cur.CutData {
+			e.terminate("data-cut-"+e.cur.CutWhere, "aborted")
 		} else {
 			e.terminate("end", "aborted")
 		}
